@@ -133,6 +133,29 @@ theorem C01_nested_switch_witness :
             [(PATH, [.own (nA, v1) [2], .own (nA, v2) [1]])], [(ALATE, .own (nA, v1) [])]⟩ := by
   decide +kernel
 
+/-! ## D34: an environment produced under one setup type is not `WellOwned` for a request of the other type -/
+
+def AX : Str := [88]
+
+/-- `a 1`: `envPrepend(PATH, $DIR/1); if (type == exact) { envPrepend(PATH, $DIR/2); envSet(X, $DIR) } else { envPrepend(PATH, $DIR/3) }` -/
+def dbD34 : Db :=
+  { decls := [
+      ⟨nA, v1, [2], [(.always, .prepend PATH [.own [1]] false), (.exact, .prepend PATH [.own [2]] false),
+                     (.exact, .set AX (.own [])), (.inexact, .prepend PATH [.own [3]] false)]⟩,
+      ⟨nA, v2, [4], [(.always, .prepend PATH [.own [1]] false)]⟩ ],
+    tags := [(tagCurrent, nA, v1)] }
+
+/-- `setup a` (exact), then `setup --inexact a 2`: `a 1` is unwound under the inexact reading of its table; `dir(a 1)/2`
+and `X = dir(a 1)` stay behind although `SETUP_A = a 2`.  The theorems' hypothesis `WellOwned (r.cfg db) e` (the prior
+environment was produced under the request's setup type) is what excludes this history. -/
+theorem C01_mixed_type_witness :
+    ∃ e1, envOf (runSetup dbD34 10 ⟨nA, none, false, none, false, []⟩ Setup.Env.empty) = some e1 ∧
+      envOf (runSetup dbD34 10 ⟨nA, some (.explicit v2), false, none, true, []⟩ e1) =
+        some ⟨[(nA, v2)], [(nA, .own (nA, v2) [])], [(PATH, [.own (nA, v2) [1], .own (nA, v1) [2]])],
+              [(AX, .own (nA, v1) [])]⟩ := by
+  refine ⟨⟨[(nA, v1)], [(nA, .own (nA, v1) [])], [(PATH, [.own (nA, v1) [2], .own (nA, v1) [1]])],
+           [(AX, .own (nA, v1) [])]⟩, ?_, ?_⟩ <;> decide +kernel
+
 /-! ## non-vacuity: a diamond that switches `c 1 → c 2` inside one request -/
 
 /-- `top → a → c 1`, `top → b → c 2` -/
